@@ -2,7 +2,7 @@
    Property theorems only.  `eval sl q es` is the model evaluator (model/Eval.v), transcribed
    from evaluator.rs; these theorems are the language definition in readable form. *)
 From Coq Require Import Permutation.
-From Cedar Require Import Eval EvalProofs ValueProofs.
+From Cedar Require Import Eval Like EvalProofs ValueProofs LikeProofs.
 
 (* Short-circuiting: an error (or anything else) in a skipped operand never surfaces *)
 Theorem c02_and_short_circuit :
@@ -169,6 +169,14 @@ Proof.
 Qed.
 Print Assumptions c02_like.
 
+(* The implementation's matcher is a greedy two-pointer loop with a single backtrack point
+   (Pattern::wildcard_match, transcribed as Like.wildcard_loop); it computes exactly the
+   declarative matcher above, for every pattern and every string. *)
+Theorem c02_like_loop :
+  forall p s, wildcard_loop p s = wildcard p s.
+Proof. exact wildcard_loop_correct. Qed.
+Print Assumptions c02_like_loop.
+
 (* == is an equivalence relation on values ... *)
 Theorem c02_eq_equivalence :
   (forall v, value_eqb v v = true) /\
@@ -240,4 +248,8 @@ Proof. apply wildcard_iff; reflexivity. Qed.
 Example c02_example_sets :
   value_eqb (VSet [VLong 1; VLong 2; VLong 1]) (VSet [VLong 2; VLong 1]) = true /\
   value_eqb (VSet [VLong 1]) (VSet [VLong 1; VLong 3]) = false.
+Proof. split; reflexivity. Qed.
+Example c02_example_like_loop :
+  wildcard_loop [PChar 97%N; PStar; PChar 98%N; PStar] [97%N; 98%N; 120%N; 98%N; 99%N] = true /\
+  wildcard_loop [PStar; PChar 97%N] [97%N; 98%N] = false.
 Proof. split; reflexivity. Qed.
